@@ -5,9 +5,9 @@
          perf   = (error) | <comp>
          action = (train|apply|perftrack|serve  none|<generation>  run  hp  shift)
        every action runs on the case renamed by `+ shift` (uids and gids): a fresh expansion
-  out: (ok (wf <plain> <perf> (<the conjuncts of wfPlain>)) (ptags <tag|none> ...) (<step> ...) (perfmodel <agrees>))
-         perfmodel: the perftrack composition derived in the model (`Comp.perfOf`) is refused iff the extracted one
-         was, and otherwise persists the same occurrences position by position
+  out: (ok (wf <plain> <perf> (<the conjuncts of wfPlain> <tailClean>)) (ptags <tag|none> ...) (<step> ...) (perfmodel agree|differ|both-refuse|impl-refuses|model-refuses))
+         perfmodel: the perftrack composition derived in the model (`Comp.perfOf`) against the extracted one: do they
+         persist the same occurrences position by position / are both refused
          step = (ok <number of generations afterwards> (<obs> ...)) | (error <name>)
          obs  = (a tag hp <state>) | (t tag hp <state>)       state = none | (tag run hp none|(ptag prun))
 -/
@@ -82,12 +82,13 @@ def runActions (cs : Case) : Registry → List (Action × Nat) → List Sexp
     | .ok (reg', obs) =>
       .list [.atom "ok", Sexp.ofNat reg'.length, .list (obs.map obsSexp)] :: runActions cs reg' rest
 
-/-- does the extracted perftrack composition agree with the one the model derives from the plain composition? -/
-def perfAgrees (plain : Comp) (perf : Except Err Comp) : Bool :=
+/-- the extracted perftrack composition against the one the model derives from the plain composition -/
+def perfAgrees (plain : Comp) (perf : Except Err Comp) : String :=
   match plain.perfOf (· + 500000), perf with
-  | .ok p, .ok q => p.persistentTags == q.persistentTags
-  | .error _, .error _ => true
-  | _, _ => false
+  | .ok p, .ok q => if p.persistentTags == q.persistentTags then "agree" else "differ"
+  | .error _, .error _ => "both-refuse"
+  | .ok _, .error _ => "impl-refuses"
+  | .error _, .ok _ => "model-refuses"
 
 def stepC04 : Sexp → Sexp
   | .list [.atom "case", c, p, .list acts] =>
@@ -99,12 +100,12 @@ def stepC04 : Sexp → Sexp
           .list [Sexp.ofBool plain.tagsConsistent, Sexp.ofBool plain.uidsDistinct, Sexp.ofBool plain.trainedStateful,
             Sexp.ofBool plain.trainersVisited, Sexp.ofBool (plain.appliedDerived plain.applyHead plain.applyTail),
             Sexp.ofBool (plain.appliedDerived plain.trainHead plain.trainTail),
-            Sexp.ofBool (plain.noTrainer plain.applyHead plain.applyTail)]],
+            Sexp.ofBool (plain.noTrainer plain.applyHead plain.applyTail), Sexp.ofBool plain.tailClean]],
         .list (.atom "ptags" :: plain.persistentTags.map (fun t => match t with
           | some t => Sexp.ofNat t
           | none => .atom "none")),
         .list (runActions cs [] acts),
-        .list [.atom "perfmodel", Sexp.ofBool (perfAgrees plain perf)]]
+        .list [.atom "perfmodel", .atom (perfAgrees plain perf)]]
     | _, _, _ => .atom "bad-op"
   | _ => .atom "bad-op"
 
